@@ -11,6 +11,7 @@ from predicate.negate import negate
 from predicate import predicate as PP
 from predicate.standard_predicates import (all_p, any_p, comp_p, has_key_p, has_length_p, is_set_of_p, lazy_p, regex_p, tee_p)
 from predicate.named_predicate import NamedPredicate
+from predicate.set_predicates import in_p, not_in_p
 
 
 def grid(rng, tier):
@@ -21,6 +22,11 @@ def grid(rng, tier):
     atoms += [PP.is_empty_p, PP.is_not_empty_p, has_length_p(0), has_length_p(2), has_key_p(1), has_key_p(3),
               regex_p("^a"), regex_p("b$"), lazy_p("nope"), tee_p(enc.FN_LIB[2][0]),
               comp_p(enc.COMP_LIB[0][0], PP.GePredicate(v=2)), NamedPredicate(name="p"), NamedPredicate(name="q")]
+    # constants outside the numeric sort (bool, None, str, tuple): the structural comparison skips what it cannot encode, the search does not
+    atoms += [PP.EqPredicate(v=True), PP.EqPredicate(v=False), PP.NePredicate(v=True), PP.NePredicate(v=False), PP.EqPredicate(v=None),
+              PP.NePredicate(v=None), PP.EqPredicate(v="a"), PP.NePredicate(v=""), PP.EqPredicate(v=(1, 2)), PP.GePredicate(v="m"),
+              PP.LtPredicate(v="m"), in_p(None), not_in_p(None, 1), in_p("a", "b"), not_in_p("a"), in_p(True), not_in_p(False), in_p((1, 2)),
+              in_p(1, 2, (1, 2)), not_in_p(1, (1,))]
     comps = []
     n = 150 if tier == "quick" else 1500
     for _ in range(n):
@@ -35,7 +41,8 @@ def grid(rng, tier):
     return atoms + comps
 
 
-VALUES = gen.SCALAR_VALUES + [[], [1], [1, 2], [3, 5], (), (1, 2), set(), {1}, {1, 2}, {1, 2, 3}, {2, 3}, {}, {1: 2}, [None], [[1]]]
+VALUES = gen.SCALAR_VALUES + [[], [1], [1, 2], [3, 5], (), (1, 2), set(), {1}, {1, 2}, {1, 2, 3}, {2, 3}, {}, {1: 2}, [None], [[1]],
+                              "yes", "m", "z", -1.5, (1,), {"k": 1}]
 
 
 def correspondence(payload):
